@@ -653,7 +653,8 @@ pub mod pushrec {
         } else if a == 1 {
             Ok(false)
         } else {
-            Err(crate::CacheError::SendError(String::new()))
+            // an error without heap payload (the ring treats every non-Ok(true) answer alike)
+            Err(crate::CacheError::InvalidBufferSize)
         }
     }
     #[cfg(kani)]
